@@ -261,8 +261,8 @@ pub fn main(tier: Tier) -> ! {
 
     // objects: TREE(1,3) with arbitrary keys
     let objs: Vec<RVal> = {
-        let atoms = vec![rv::int(0), rv::int(1), rv::s("a"), RVal::Null];
-        let keys = vec![rv::s("a"), rv::s("b"), rv::int(0), RVal::Null, RVal::Arr(vec![rv::int(1)])];
+        let atoms = vec![rv::int(0), rv::int(1), rv::s("a"), RVal::Null, RVal::Bool(false)];
+        let keys = vec![rv::s("a"), rv::s("b"), rv::int(0), RVal::Null, RVal::Arr(vec![rv::int(1)]), RVal::Bool(false)];
         let w = if run.quick() { 2 } else { 3 };
         let mut v: Vec<RVal> = gen::trees(&atoms, &keys, 1, w).into_iter().filter(|x| matches!(x, RVal::Obj(_))).collect();
         // nested values
@@ -273,7 +273,7 @@ pub fn main(tier: Tier) -> ! {
     let c = run_laws(&run, "object", &own(OBJECT_LAWS), &objs);
     run.family("objects", json!({"objects": objs.len(), "laws": OBJECT_LAWS.len(), "cases": c.evaluations}));
     run.add(c);
-    run.bound_done(format!("all objects with <= {} entries over 5 keys x 4 values, every insertion order ({} objects)", if run.quick() { 2 } else { 3 }, objs.len()));
+    run.bound_done(format!("all objects with <= {} entries over 6 keys x 5 values (incl. false and null as key and as value), every insertion order ({} objects)", if run.quick() { 2 } else { 3 }, objs.len()));
 
     // arrays of arrays
     let aas: Vec<RVal> = {
